@@ -305,6 +305,15 @@ def attempt(fn, *a, **kw):
         raise
     except RecursionError as e:
         return False, e
+    except NameError as e:
+        # (incl. UnboundLocalError) never a deliberate rejection of an input:
+        # "raises" here means the operation is broken, not that it refuses
+        if lib_frame(e) is None:
+            raise
+        raise Discrepancy(
+            raise_sig(e),
+            f"{getattr(fn, '__name__', '?')} raised {type(e).__name__}: {e}",
+        ) from e
     except Exception as e:
         if _is_hyp(e):
             raise
